@@ -159,12 +159,18 @@ def get_prop(pid):
 def run_scenario(prop, scenario):
     """Run a scenario; harness exceptions are kept apart from violations."""
     sc = copy.deepcopy(scenario)
+    herr = None
     try:
         res = prop.run(sc)
     except Violation as v:           # a property may raise its first violation
         res = Result()
         res.violate(v.oracle, v.msg, v.step)
-    return res.to_json()
+    except Exception:
+        res = Result()
+        herr = traceback.format_exc()[-1500:]
+    out = res.to_json()
+    out["harness_error"] = herr
+    return out
 
 
 def find_known(prop, scenario, violation, findings):
@@ -207,6 +213,12 @@ def worker_main(pid, args):
     keys = set()
 
     def account(idx, sc, r):
+        if r.get("harness_error"):
+            out.setdefault("harness_errors", [])
+            if len(out["harness_errors"]) < 2:
+                out["harness_errors"].append({"index": idx, "scenario": sc, "trace": r["harness_error"]})
+            out["n_harness_errors"] = out.get("n_harness_errors", 0) + 1
+            return
         out["runs"] += 1
         out["events"] += r["events"]
         for k, v in r["counts"].items():
@@ -396,6 +408,9 @@ def spawn_workers(pid, seed, tier, runs, wall, nworkers, digests=False, hashseed
             continue
         with open(out) as fh:
             results.append(json.load(fh))
+        for he in results[-1].get("harness_errors", []):
+            errors.append("worker %d: run %s raised inside the harness (%d such runs in this worker)\n%s\nscenario=%s" % (
+                w, he["index"], results[-1].get("n_harness_errors", 0), he["trace"], json.dumps(he["scenario"])[:1500]))
     shutil.rmtree(tmp, ignore_errors=True)
     return results, errors
 
@@ -439,8 +454,9 @@ def check_main(pid, tier, seed, nworkers=None):
     results, errors = spawn_workers(pid, seed, tier, b["runs"], b["wall"], nworkers)
     m = merge(results)
     if errors:
-        for e in errors:
-            print("HARNESS-ERROR property=%s %s" % (pid, e))
+        print("HARNESS-ERROR property=%s %s" % (pid, errors[0]))
+        for e in errors[1:]:
+            print("HARNESS-ERROR property=%s (also) %s" % (pid, e.splitlines()[0]))
         exit_code = 3
 
     # known findings: replay the canonical file of each listed finding of this property
